@@ -1,10 +1,15 @@
 (* C20 — async lru_cache: right value, single flight, bounded retention.
    This file contains only statements closed by `exact` and their Print Assumptions.
    `run cf ops` is the state of the Lru machine after the op list `ops` (any callers, any schedule, any oracle
-   values) under configuration cf = (maxsize, ttl, always_checkpoint, typed, number of callers).
-   Hypotheses `no_inflight_eviction` / `no_waited_eviction` exclude the known findings F3 / F8 (boolean predicates
-   evicts_inflight / evicts_waited on the op list); the `refuted` theorems show that they cannot be dropped. *)
-From AV Require Import Base Lru LruLockFacts LruDict LruProofs LruInv LruStep LruThms.
+   values, calls inside cancelled scopes, cache_clear() at any time, consecutive event loops) under configuration
+   cf = (maxsize, ttl, always_checkpoint, typed, number of callers); `dict s` = entries of the running loop,
+   `dicts s g` = the dict of generation g (a dict discarded by cache_clear() lives on for the calls that hold it).
+   The strong clauses are stated under boolean hypotheses on the op list that exclude the known findings:
+     no_inflight_eviction  (F3,  predicate evicts_inflight)        no_waited_eviction   (F8,  evicts_waited)
+     no_other_loop         (F30, stale_count_other_loop)           no_uncounted_eviction (F31, uncounted_placeholder)
+     maxsize_pos           (F32, maxsize0_no_single_flight)        no_dead_placeholder  (F41, dead_placeholder_counted)
+   and the `refuted` theorems show by concrete histories that none of them can be dropped. *)
+From AV Require Import Base Lru LruLockFacts LruDict LruProofs LruInv LruCount LruStep LruThms LruWitness.
 From AV Require Lock LockProofs.
 From Coq Require Import Sorting.Sorted.
 
@@ -15,51 +20,54 @@ Theorem C20_value_faithful : forall cf ops o s' v,
 Proof. exact lru_value_faithful. Qed.
 Print Assumptions C20_value_faithful.
 
-Theorem C20_produced_only_by_wrapped : forall cf s o,
+Theorem C20_produced_only_by_wrapped : forall cf ops o,
+  let s := run cf ops in
   produced (fst (step cf s o)) = produced s \/
   exists c k v, o = Resume c /\ produced (fst (step cf s o)) = (k, v) :: produced s /\
-    ((exists l, phase s c = CInWrapped k l (Some (WRet v)) false) \/ phase s c = CBypass k (Some (WRet v)) false).
+    ((exists l g, phase s c = CInWrapped k l (Some (WRet v)) false g) \/ phase s c = CBypass k (Some (WRet v)) false).
 Proof. exact lru_produced_only_by_wrapped. Qed.
 Print Assumptions C20_produced_only_by_wrapped.
 
-Theorem C20_raises_own : forall cf s o e,
+Theorem C20_raises_own : forall cf ops o e,
+  let s := run cf ops in
   snd (step cf s o) = RExc e ->
   exists c k, o = Resume c /\
-    ((exists l, phase s c = CInWrapped k l (Some (WExc e)) false) \/ phase s c = CBypass k (Some (WExc e)) false).
+    ((exists l g, phase s c = CInWrapped k l (Some (WExc e)) false g) \/ phase s c = CBypass k (Some (WExc e)) false).
 Proof. exact lru_raises_own. Qed.
 Print Assumptions C20_raises_own.
 
-(* ---- single flight (under both hypotheses) ---- *)
-Theorem C20_single_flight : forall cf ops c1 c2 k l1 l2 p1 b1 p2 b2,
-  no_inflight_eviction cf ops -> no_waited_eviction cf ops ->
-  phase (run cf ops) c1 = CInWrapped k l1 p1 b1 ->
-  phase (run cf ops) c2 = CInWrapped k l2 p2 b2 ->
+(* ---- single flight, at full strength: any two callers executing the wrapped function for the same key (through
+        the cache or through the maxsize = 0 path, in whatever dict) are the same caller ---- *)
+Theorem C20_single_flight : forall cf ops c1 c2 k,
+  maxsize_pos cf -> no_inflight_eviction cf ops -> no_waited_eviction cf ops -> no_other_loop cf ops ->
+  ((exists l p b g, phase (run cf ops) c1 = CInWrapped k l p b g) \/ (exists p b, phase (run cf ops) c1 = CBypass k p b)) ->
+  ((exists l p b g, phase (run cf ops) c2 = CInWrapped k l p b g) \/ (exists p b, phase (run cf ops) c2 = CBypass k p b)) ->
   c1 = c2.
 Proof. exact lru_single_flight. Qed.
 Print Assumptions C20_single_flight.
 
-Theorem C20_reuse_first_result : forall cf ops c k l t0 v e,
-  phase (run cf ops) c = CLockWait k l t0 ->
-  dget k (dict (run cf ops)) = Some (EVal v e) ->
+Theorem C20_reuse_first_result : forall cf ops c k l t0 g v e,
+  phase (run cf ops) c = CLockWait k l t0 g ->
+  dget k (dicts (run cf ops) g) = Some (EVal v e) ->
   let r := snd (step cf (run cf ops) (Resume c)) in
   r = RRet v \/ r = RCancelled \/ r = RRejected.
 Proof. exact lru_reuse_first_result. Qed.
 Print Assumptions C20_reuse_first_result.
 
 (* ---- different keys do not block one another (unconditional) ---- *)
-Theorem C20_distinct_keys_independent : forall cf ops c k l t0,
-  phase (run cf ops) c = CLockWait k l t0 ->
+Theorem C20_distinct_keys_independent : forall cf ops c k l t0 g,
+  phase (run cf ops) c = CLockWait k l t0 g ->
   lkey (run cf ops) l = k /\
   (forall c', Lock.phase_of (locks (run cf ops) l) c' <> Lock.Idle \/ In c' (Lock.held (locks (run cf ops) l)) ->
-     (exists t, phase (run cf ops) c' = CLockWait k l t) \/
-     (exists p b, phase (run cf ops) c' = CInWrapped k l p b)) /\
+     (exists t g', phase (run cf ops) c' = CLockWait k l t g') \/
+     (exists p b g', phase (run cf ops) c' = CInWrapped k l p b g')) /\
   (forall c', Lock.owner (locks (run cf ops) l) = Some c' ->
-     (exists t, phase (run cf ops) c' = CLockWait k l t) \/
-     (exists p b, phase (run cf ops) c' = CInWrapped k l p b)).
+     (exists t g', phase (run cf ops) c' = CLockWait k l t g') \/
+     (exists p b g', phase (run cf ops) c' = CInWrapped k l p b g')).
 Proof. exact lru_distinct_keys_independent. Qed.
 Print Assumptions C20_distinct_keys_independent.
 
-(* ---- no internal error (under both hypotheses; the lock part unconditionally) ---- *)
+(* ---- no internal error ---- *)
 Theorem C20_no_internal_error : forall cf ops o,
   no_inflight_eviction cf (ops ++ [o]) -> no_waited_eviction cf (ops ++ [o]) ->
   snd (step cf (run cf ops) o) <> RKeyError /\ snd (step cf (run cf ops) o) <> RLockErr.
@@ -70,102 +78,118 @@ Theorem C20_no_lock_error : forall cf ops o, snd (step cf (run cf ops) o) <> RLo
 Proof. exact lru_no_lock_error. Qed.
 Print Assumptions C20_no_lock_error.
 
-(* ---- bounded retention (under no_inflight_eviction), least recently used first (unconditional) ---- *)
+(* ---- bounded retention: results + counted placeholders of the running loop's dict never exceed maxsize;
+        every running computation owns a counted placeholder; without any finding pattern the count is exact and
+        an entry is evicted only when the number of counted live entries has reached maxsize ---- *)
 Theorem C20_bounded : forall cf ops m,
-  no_inflight_eviction cf ops -> maxsize cf = Some m ->
+  no_inflight_eviction cf ops -> no_waited_eviction cf ops -> no_uncounted_eviction cf ops ->
+  maxsize cf = Some m ->
   length (filter (fun x => negb (is_place (se x))) (dict (run cf ops))) +
-  length (filter (fun c => match phase (run cf ops) c with CInWrapped _ _ _ _ => true | _ => false end)
-                 (seq 0 (ncall cf))) <= m.
+  length (filter (fun x => match se x with EPlace _ true => true | _ => false end) (dict (run cf ops))) <= m.
 Proof. exact lru_bounded. Qed.
 Print Assumptions C20_bounded.
 
-Theorem C20_order : forall cf ops,
-  NoDup (map sk (dict (run cf ops))) /\
-  StronglySorted (fun a b => ss a < ss b) (dict (run cf ops)) /\
-  (forall x, In x (dict (run cf ops)) -> ss x < clk (run cf ops)).
+Theorem C20_running_is_counted : forall cf ops c k l p b g,
+  no_inflight_eviction cf ops -> no_waited_eviction cf ops ->
+  phase (run cf ops) c = CInWrapped k l p b g -> dget k (dicts (run cf ops) g) = Some (EPlace l true).
+Proof. exact lru_running_is_counted. Qed.
+Print Assumptions C20_running_is_counted.
+
+Theorem C20_count_exact : forall cf ops,
+  no_inflight_eviction cf ops -> no_waited_eviction cf ops -> no_uncounted_eviction cf ops ->
+  no_dead_placeholder cf ops -> no_other_loop cf ops ->
+  currsize (run cf ops) =
+  Z.of_nat (length (filter (fun x => negb (is_place (se x))) (dict (run cf ops))) +
+            length (filter (fun x => match se x with EPlace _ true => true | _ => false end) (dict (run cf ops)))).
+Proof. exact lru_count_exact. Qed.
+Print Assumptions C20_count_exact.
+
+Theorem C20_evicts_only_when_full : forall cf ops o key,
+  no_inflight_eviction cf (ops ++ [o]) -> no_waited_eviction cf (ops ++ [o]) ->
+  no_uncounted_eviction cf (ops ++ [o]) -> no_dead_placeholder cf (ops ++ [o]) -> no_other_loop cf (ops ++ [o]) ->
+  o <> Clear -> o <> NewLoop ->
+  In key (map sk (dict (run cf ops))) -> ~ In key (map sk (dict (run cf (ops ++ [o])))) ->
+  exists m, maxsize cf = Some m /\
+    length (filter (fun x => negb (is_place (se x))) (dict (run cf (ops ++ [o])))) +
+    length (filter (fun x => match se x with EPlace _ true => true | _ => false end) (dict (run cf (ops ++ [o])))) = m.
+Proof. exact lru_evicts_only_when_full. Qed.
+Print Assumptions C20_evicts_only_when_full.
+
+(* ---- least recently used first, ttl included (unconditional).  ss = ghost stamp = logical time of the entry's
+        last use (install, hit, reuse after a wait, recomputation after expiry); clk = the logical clock ---- *)
+Theorem C20_order : forall cf ops g,
+  NoDup (map sk (dicts (run cf ops) g)) /\
+  StronglySorted (fun a b => ss a < ss b) (dicts (run cf ops) g) /\
+  (forall x, In x (dicts (run cf ops) g) -> ss x < clk (run cf ops)).
 Proof. exact lru_order. Qed.
 Print Assumptions C20_order.
 
-(* LRU eviction at full strength (ttl included).  ss = ghost stamp = logical time of the entry's last use
-   (install, hit, reuse after a wait, recomputation after expiry: C20_stamp_is_last_use + C20_use_refreshes);
-   clk = the logical clock, larger than every stamp (C20_order).  Unconditional, hence in particular under
-   no_inflight_eviction / no_waited_eviction. *)
-Theorem C20_evicts_oldest_use : forall cf ops o x,
-  o <> Clear -> In x (dict (run cf ops)) ->
-  (forall y, In y (dict (fst (step cf (run cf ops) o))) -> sk y <> sk x) ->
-  forall y', In y' (dict (fst (step cf (run cf ops) o))) -> ss x < ss y'.
+Theorem C20_evicts_oldest_use : forall cf ops o g x,
+  o <> Clear -> o <> NewLoop -> In x (dicts (run cf ops) g) ->
+  (forall y, In y (dicts (fst (step cf (run cf ops) o)) g) -> sk y <> sk x) ->
+  forall y', In y' (dicts (fst (step cf (run cf ops) o)) g) -> ss x < ss y'.
 Proof. exact lru_evicts_oldest_use. Qed.
 Print Assumptions C20_evicts_oldest_use.
 
-Theorem C20_stamp_is_last_use : forall cf ops o y',
-  o <> Clear -> In y' (dict (fst (step cf (run cf ops) o))) ->
-  (exists y, In y (dict (run cf ops)) /\ sk y = sk y' /\ ss y = ss y') \/
+Theorem C20_stamp_is_last_use : forall cf ops o g y',
+  o <> Clear -> o <> NewLoop -> In y' (dicts (fst (step cf (run cf ops) o)) g) ->
+  (exists y, In y (dicts (run cf ops) g) /\ sk y = sk y' /\ ss y = ss y') \/
   (call_key cf (run cf ops) o = Some (sk y') /\ clk (run cf ops) <= ss y').
 Proof. exact lru_stamp_is_last_use. Qed.
 Print Assumptions C20_stamp_is_last_use.
 
-Theorem C20_use_refreshes : forall cf ops o k,
-  ((exists c a, o = Call c a /\ key_of cf a = k /\ snd (step cf (run cf ops) o) <> RRejected /\
-      is_zero_max cf = false /\ (forall l, dget k (dict (run cf ops)) <> Some (EPlace l))) \/
-   (exists c l t0 v, o = Resume c /\ phase (run cf ops) c = CLockWait k l t0 /\
+Theorem C20_use_refreshes : forall cf ops o k g,
+  ((exists c a, (o = Call c a \/ o = CallX c a) /\ key_of cf a = k /\ g = cur (run cf ops) /\
+      snd (step cf (run cf ops) o) <> RRejected /\
+      is_zero_max cf = false /\ (forall l b, dget k (dict (run cf ops)) <> Some (EPlace l b))) \/
+   (exists c l t0 v, o = Resume c /\ phase (run cf ops) c = CLockWait k l t0 g /\
       snd (step cf (run cf ops) o) = RRet v)) ->
-  forall y, In y (dict (fst (step cf (run cf ops) o))) -> sk y = k -> clk (run cf ops) <= ss y.
+  forall y, In y (dicts (fst (step cf (run cf ops) o)) g) -> sk y = k -> clk (run cf ops) <= ss y.
 Proof. exact lru_use_refreshes. Qed.
 Print Assumptions C20_use_refreshes.
 
-(* F15 (fixed by /repo 21d8dda): the variant of `step` that keeps the position of an expired entry when it is
-   recomputed violates C20_evicts_oldest_use on a history without any F3 / F8 eviction *)
-Theorem C20_refuted_old_expiry_order :
-  exists cf ops o x y',
-    f_inflight (run_old cf (ops ++ [o])) = false /\ f_waited (run_old cf (ops ++ [o])) = false /\
-    o <> Clear /\ In x (dict (run_old cf ops)) /\
-    (forall y, In y (dict (fst (old_expiry_step cf (run_old cf ops) o))) -> sk y <> sk x) /\
-    In y' (dict (fst (old_expiry_step cf (run_old cf ops) o))) /\ ss y' < ss x.
-Proof. exact lru_refuted_old_expiry_order. Qed.
-Print Assumptions C20_refuted_old_expiry_order.
-
 (* ---- an expired entry is recomputed, not served (unconditional) ---- *)
-Theorem C20_expired_recomputed : forall cf s c a v,
-  snd (step cf s (Call c a)) <> RRejected ->
-  (snd (step cf s (Call c a)) = RRet v \/
-   exists b, phase (fst (step cf s (Call c a))) c = CHitCk (key_of cf a) v b) ->
-  exists x exp, dfind (key_of cf a) (dict s) = Some x /\ se x = EVal v exp /\ expired exp (now s) = false.
+Theorem C20_expired_recomputed : forall cf ops c a x v,
+  let s := run cf ops in
+  snd (enter cf s c a x) <> RRejected ->
+  (snd (enter cf s c a x) = RRet v \/
+   exists b, phase (fst (enter cf s c a x)) c = CHitCk (key_of cf a) v b) ->
+  exists y exp, dfind (key_of cf a) (dict s) = Some y /\ se y = EVal v exp /\ expired exp (now s) = false.
 Proof. exact lru_expired_recomputed. Qed.
 Print Assumptions C20_expired_recomputed.
 
-Theorem C20_reread_serves_fresh : forall cf ops c k l t0 v,
-  phase (run cf ops) c = CLockWait k l t0 ->
+Theorem C20_reread_serves_fresh : forall cf ops c k l t0 g v,
+  phase (run cf ops) c = CLockWait k l t0 g ->
   snd (step cf (run cf ops) (Resume c)) = RRet v ->
-  exists exp, dget k (dict (run cf ops)) = Some (EVal v exp) /\
+  exists exp, dget k (dicts (run cf ops) g) = Some (EVal v exp) /\
               forall e dl, exp = Some e -> ttl cf = Some dl -> t0 + dl <= e.
 Proof. exact lru_reread_serves_fresh. Qed.
 Print Assumptions C20_reread_serves_fresh.
 
 (* ---- the invariant behind the above, for every op sequence ---- *)
-Theorem C20_invariant : forall cf ops, Inv cf (run cf ops).
+Theorem C20_invariant : forall cf ops, Inv1 cf (run cf ops) /\ Inv2 cf (run cf ops).
 Proof. exact reachable_inv. Qed.
 Print Assumptions C20_invariant.
 
-(* ---- refutations without the hypotheses: finding F3 (a placeholder is evicted) ---- *)
+(* ---- refutations: F3 (a miss evicts a placeholder whose lock is held or waited on) ---- *)
 Theorem C20_refuted_keyerror :
   exists cf ops o, evicts_inflight cf (ops ++ [o]) = true /\ snd (step cf (run cf ops) o) = RKeyError.
 Proof. exact lru_refuted_keyerror. Qed.
 Print Assumptions C20_refuted_keyerror.
 
 Theorem C20_refuted_exceeds :
-  exists cf ops m, maxsize cf = Some m /\
+  exists cf ops m, maxsize cf = Some m /\ evicts_inflight cf ops = true /\
     m < length (filter (fun x => negb (is_place (se x))) (dict (run cf ops))).
 Proof. exact lru_refuted_exceeds. Qed.
 Print Assumptions C20_refuted_exceeds.
 
 Theorem C20_refuted_double_flight :
-  exists cf ops c1 c2 k l1 l2, c1 <> c2 /\
-    phase (run cf ops) c1 = CInWrapped k l1 None false /\ phase (run cf ops) c2 = CInWrapped k l2 None false.
+  exists cf ops c1 c2 k, maxsize_pos cf /\ evicts_inflight cf ops = true /\ c1 <> c2 /\
+    executing (run cf ops) c1 k /\ executing (run cf ops) c2 k.
 Proof. exact lru_refuted_double_flight. Qed.
 Print Assumptions C20_refuted_double_flight.
 
-(* ---- refutations under no_inflight_eviction alone: finding F8 (a completed entry is evicted / expires while a
-        caller is still queued on its lock) ---- *)
+(* ---- F8 (a completed entry is evicted / expires while a caller is queued on its lock) ---- *)
 Theorem C20_refuted_keyerror_waited :
   exists cf ops o, evicts_inflight cf (ops ++ [o]) = false /\ evicts_waited cf (ops ++ [o]) = true /\
     snd (step cf (run cf ops) o) = RKeyError.
@@ -173,14 +197,70 @@ Proof. exact lru_refuted_keyerror_waited. Qed.
 Print Assumptions C20_refuted_keyerror_waited.
 
 Theorem C20_refuted_double_flight_waited :
-  exists cf ops c1 c2 k l1 l2, evicts_inflight cf ops = false /\ evicts_waited cf ops = true /\ c1 <> c2 /\
-    phase (run cf ops) c1 = CInWrapped k l1 None false /\ phase (run cf ops) c2 = CInWrapped k l2 None false.
+  exists cf ops c1 c2 k, maxsize_pos cf /\ evicts_inflight cf ops = false /\ evicts_waited cf ops = true /\
+    stale_count_other_loop cf ops = false /\ c1 <> c2 /\
+    executing (run cf ops) c1 k /\ executing (run cf ops) c2 k.
 Proof. exact lru_refuted_double_flight_waited. Qed.
 Print Assumptions C20_refuted_double_flight_waited.
 
 Theorem C20_refuted_double_flight_ttl :
-  exists cf ops c1 c2 k l1 l2, maxsize cf = None /\ dict (run cf ops) <> [] /\
-    evicts_inflight cf ops = false /\ evicts_waited cf ops = true /\ c1 <> c2 /\
-    phase (run cf ops) c1 = CInWrapped k l1 None false /\ phase (run cf ops) c2 = CInWrapped k l2 None false.
+  exists cf ops c1 c2 k, maxsize cf = None /\ evicts_inflight cf ops = false /\ evicts_waited cf ops = true /\
+    c1 <> c2 /\ executing (run cf ops) c1 k /\ executing (run cf ops) c2 k.
 Proof. exact lru_refuted_double_flight_ttl. Qed.
 Print Assumptions C20_refuted_double_flight_ttl.
+
+(* ---- F30 (the wrapper-level count outlives the loop's dict / a cache_clear() racing a flight) ---- *)
+Theorem C20_refuted_other_loop :
+  exists cf ops c1 c2 k, maxsize_pos cf /\ stale_count_other_loop cf ops = true /\ evicts_waited cf ops = false /\
+    dead_placeholder_counted cf ops = false /\ uncounted_placeholder cf ops = false /\ c1 <> c2 /\
+    executing (run cf ops) c1 k /\ executing (run cf ops) c2 k /\
+    dict (run cf (firstn 4 ops)) = [] /\ currsize (run cf (firstn 4 ops)) = 1%Z.
+Proof. exact lru_refuted_other_loop. Qed.
+Print Assumptions C20_refuted_other_loop.
+
+Theorem C20_refuted_clear_in_flight :
+  exists cf ops c1 c2 k, maxsize_pos cf /\ stale_count_other_loop cf ops = true /\ evicts_waited cf ops = false /\
+    c1 <> c2 /\ executing (run cf ops) c1 k /\ executing (run cf ops) c2 k /\
+    dict (run cf (firstn 8 ops)) = [] /\ currsize (run cf (firstn 8 ops)) = 1%Z.
+Proof. exact lru_refuted_clear_in_flight. Qed.
+Print Assumptions C20_refuted_clear_in_flight.
+
+(* ---- F31 (a call aborted at the lock entry leaves an uncounted placeholder) ---- *)
+Theorem C20_refuted_uncounted_exceeds :
+  exists cf ops m, maxsize cf = Some m /\ evicts_inflight cf ops = false /\ evicts_waited cf ops = false /\
+    stale_count_other_loop cf ops = false /\ uncounted_placeholder cf ops = true /\
+    m < length (filter (fun x => negb (is_place (se x))) (dict (run cf ops))) /\ currsize (run cf ops) = 1%Z.
+Proof. exact lru_refuted_uncounted_exceeds. Qed.
+Print Assumptions C20_refuted_uncounted_exceeds.
+
+(* ---- F32 (maxsize = 0: no lock, no single flight) ---- *)
+Theorem C20_refuted_maxsize0_double_flight :
+  exists cf ops c1 c2 k, is_zero_max cf = true /\ maxsize0_no_single_flight cf ops = true /\
+    evicts_inflight cf ops = false /\ evicts_waited cf ops = false /\ stale_count_other_loop cf ops = false /\
+    c1 <> c2 /\ executing (run cf ops) c1 k /\ executing (run cf ops) c2 k.
+Proof. exact lru_refuted_maxsize0_double_flight. Qed.
+Print Assumptions C20_refuted_maxsize0_double_flight.
+
+(* ---- F41 (a failed computation leaves its placeholder counted: eviction although the cache is not full) ---- *)
+Theorem C20_refuted_dead_placeholder :
+  exists cf ops o key m, maxsize cf = Some m /\
+    evicts_inflight cf (ops ++ [o]) = false /\ evicts_waited cf (ops ++ [o]) = false /\
+    uncounted_placeholder cf (ops ++ [o]) = false /\ stale_count_other_loop cf (ops ++ [o]) = false /\
+    dead_placeholder_counted cf (ops ++ [o]) = true /\ o <> Clear /\ o <> NewLoop /\
+    In key (map sk (dict (run cf ops))) /\ ~ In key (map sk (dict (run cf (ops ++ [o])))) /\
+    length (filter (fun x => negb (is_place (se x))) (dict (run cf (ops ++ [o])))) +
+    length (filter (fun x => match se x with EPlace _ true => true | _ => false end) (dict (run cf (ops ++ [o])))) < m /\
+    currsize (run cf (ops ++ [o])) = Z.of_nat m.
+Proof. exact lru_refuted_dead_placeholder. Qed.
+Print Assumptions C20_refuted_dead_placeholder.
+
+(* ---- F15 (fixed by /repo 21d8dda): the variant of `step` that keeps the position of an expired entry when it is
+        recomputed violates C20_evicts_oldest_use on a history without any finding pattern ---- *)
+Theorem C20_refuted_old_expiry_order :
+  exists cf ops o x y',
+    fl (run_old cf (ops ++ [o])) = mkfl false false false false false false /\
+    o <> Clear /\ o <> NewLoop /\ In x (dict (run_old cf ops)) /\
+    (forall y, In y (dict (fst (old_expiry_step cf (run_old cf ops) o))) -> sk y <> sk x) /\
+    In y' (dict (fst (old_expiry_step cf (run_old cf ops) o))) /\ ss y' < ss x.
+Proof. exact lru_refuted_old_expiry_order. Qed.
+Print Assumptions C20_refuted_old_expiry_order.
